@@ -12,7 +12,7 @@ CHECKS = {
             "assumptions": [
                 "relations are given by generators with integer coordinates in {-1,0,1,2}; the oracle evaluates candidate ranking "
                 "functions on those generators (finitely many evaluations) and never uses PPL's constraint/generator conversion",
-                "for pairs whose `before' set really cuts the relation and for BD_Shape/Octagonal_Shape/Rational_Box inputs the generators "
+                "for pairs whose `before' set really cuts the relation, for the constraint-built guard/update pairs and for BD_Shape/Octagonal_Shape/Rational_Box inputs the generators "
                 "of the denoted relation are obtained with the brute-force reference double description (ref/dd.hh) from the constraints read off the object",
                 "sup/inf of affine functions over an NNC polyhedron and over its closure coincide (NNC inputs are judged on the closure)",
                 "a before/after pair denotes after /\\ cylinder(before); 'precisely characterize' in the documentation of the _2 entry points is read as: "
